@@ -208,6 +208,27 @@ Proof.
 Qed.
 Print Assumptions C09_two_loop_early_exit_ends_outer.
 
+(* derpsalsa: for fixed (non-negative) partial weights and p <= 1/2 the weight never increases with
+   the residual (so far only the range was proved; the oracle skips this rule's monotonicity) *)
+Theorem C09_derpsalsa_antitone : forall p k partial r1 r2 : R, 0 <= p <= / 2 -> 0 < k -> 0 <= partial -> r1 <= r2 ->
+  derpsalsa_w Num_R exp p k partial r2 <= derpsalsa_w Num_R exp p k partial r1.
+Proof. exact derpsalsa_antitone. Qed.
+Print Assumptions C09_derpsalsa_antitone.
+
+(* quantile: on each side of zero the weight decreases with the size of the residual ... *)
+Theorem C09_quantile_decreasing_in_abs : forall q eps r1 r2 : R, 0 <= q <= 1 -> 0 < eps ->
+  (0 < r1 <= r2 \/ r2 <= r1 <= 0) ->
+  quantile_w Num_R q eps r2 <= quantile_w Num_R q eps r1.
+Proof. exact quantile_decreasing_in_abs. Qed.
+Print Assumptions C09_quantile_decreasing_in_abs.
+
+(* ... and for q <= 1/2 a positive residual never weighs more than the negative one of the same size
+   (the rule is NOT antitone on the negative side: it is the documented rho(r)/|r|) *)
+Theorem C09_quantile_sides : forall q eps r : R, 0 <= q <= / 2 -> 0 < eps -> 0 < r ->
+  quantile_w Num_R q eps r <= quantile_w Num_R q eps (- r).
+Proof. exact quantile_sides. Qed.
+Print Assumptions C09_quantile_sides.
+
 Example C09_rules_nonvacuous :
   0 < drpls_w Num_R 10 1 (-1) 0 < 1 /\ asls_w Num_R (/ 100) 0 0 = 1 - / 100.
 Proof.
